@@ -5,7 +5,7 @@ import ast
 from .. import tables
 from ..pat import find_expr, find_stmt, match_expr, match_stmt
 from ..pm import src
-from ..q import FA, call_name, guard_facts, walk_no_nested
+from ..q import FA, call_name, guard_facts, ifs_on, walk_no_nested
 from ..resolve import resolver
 from ..rules import sign
 
@@ -81,11 +81,23 @@ def run(ctx):
     sa = FA(sp)
     okd = len(find_stmt("$$x, $$lp = self.model.sample_and_log_prob(int(N), context=conditional)", sp.node)) == 1
     ctx.ob("R-SIB", "C08.2", sp, "without latent points: samples and their density come from the flow's own sample_and_log_prob(N)", okd and any(("z is None", True) in [(src(e), t) for e, t in guard_facts(sa, sa.cfg.id_of(n))] for n, b in find_stmt("$$x, $$lp = self.model.sample_and_log_prob(int(N), context=conditional)", sp.node)), "")
-    sel = [n for n in walk_no_nested(sp.node) if isinstance(n, ast.If) and src(n.test) == "alt_dist is not None"]
-    oks = len(sel) == 1 and match_stmt("$$f = alt_dist.log_prob", sel[0].body[0]) is not None and match_stmt("$$f = self.model.base_distribution_log_prob", sel[0].orelse[0]) is not None
-    ctx.ob("R-SIB", "C08.2", sp, "with latent points: their density function is alt_dist.log_prob iff an alternative latent distribution was given, else the flow's base distribution", oks, "")
-    lat = find_stmt("$$lp = $$f($$z)", sp.node)
+    # two equivalent shapes: the density *function* is selected and then applied, or each arm applies its own
+    sel = ifs_on(sp.node, "alt_dist is not None")
     inv = find_stmt("$$x, $$J = self.model.inverse($$z, context=conditional)", sp.node)
+    oks, lat = False, []
+    if len(sel) == 1:
+        _, then, other = sel[0]
+        fa_ = [b for s_ in then for b in [match_stmt("$$f = alt_dist.log_prob", s_)] if b is not None]
+        fb_ = [b for s_ in other for b in [match_stmt("$$f = self.model.base_distribution_log_prob", s_)] if b is not None]
+        da_ = [b for s_ in then for b in [match_stmt("$$lp = alt_dist.log_prob($$z)", s_)] if b is not None]
+        db_ = [b for s_ in other for b in [match_stmt("$$lp = self.model.base_distribution_log_prob($$z)", s_)] if b is not None]
+        if len(fa_) == 1 and len(fb_) == 1 and src(fa_[0]["f"]) == src(fb_[0]["f"]):
+            lat = find_stmt("$$lp = $$f($$z)", sp.node, {"f": fa_[0]["f"]})
+            oks = len(lat) == 1
+        elif len(da_) == 1 and len(db_) == 1 and src(da_[0]["lp"]) == src(db_[0]["lp"]) and src(da_[0]["z"]) == src(db_[0]["z"]):
+            lat = [(None, da_[0])]
+            oks = True
+    ctx.ob("R-SIB", "C08.2", sp, "with latent points: their density function is alt_dist.log_prob iff an alternative latent distribution was given, else the flow's base distribution", oks, "")
     okz = len(inv) == 1 and any(src(b["z"]) == src(inv[0][1]["z"]) for n, b in lat) and src(inv[0][1]["z"]) == "z"
     ctx.ob("R-SIB", "C08.2", sp, "the latent density is evaluated at the same z that is pushed through the inverse transform", okz, "")
     rets = [n for n in walk_no_nested(sp.node) if isinstance(n, ast.Return)]
